@@ -28,7 +28,7 @@ ASSUMPTIONS = [
 
 @st.composite
 def cases(draw, tier="quick"):
-    case = draw(dyn.graphs(max_nodes=10 if tier == "quick" else 14))
+    case = draw(dyn.graphs(max_nodes=12 if tier == "quick" else 14))
     n = len(case["nodes"])
     case["driver"] = draw(dyn.driver(n))
     mode = draw(st.sampled_from(["set_enabled", "set_enabled", "apply_configs", "apply_configs_prefix",
@@ -49,6 +49,12 @@ def apply_enable(case, b):
     comps = b.comps
     names = [dr.get_name(c) for c in comps]
     mode = case.get("enable_mode", "set_enabled")
+
+    def matched(cfg_name):
+        # documented rule: "name is the prefix or exact name of any loaded component"; an exact name
+        # addresses that component only, anything else every component whose name starts with it
+        exact = [i for i, n in enumerate(names) if n == cfg_name]
+        return set(exact) if exact else set(i for i, n in enumerate(names) if n.startswith(cfg_name))
     if mode == "set_enabled":
         return set(case["disabled"])     # dyn.execute applies dr.set_enabled
     if mode in ("apply_configs", "apply_configs_prefix"):
@@ -62,13 +68,18 @@ def apply_enable(case, b):
                 name = stem
             cfgs.append({"name": name, "enabled": False})
         insights.apply_configs({"configs": cfgs})
-        eff = set(i for i, n in enumerate(names) if any(n.startswith(c["name"]) for c in cfgs))
+        eff = set()
+        for c in cfgs:
+            eff |= matched(c["name"])
         return eff
     if mode == "default_disabled":
         insights.apply_default_enabled({"default_component_enabled": False})
         cfgs = [{"name": names[i], "enabled": True} for i in case["enabled_only"]]
         insights.apply_configs({"default_component_enabled": False, "configs": cfgs})
-        return set(i for i, n in enumerate(names) if not any(n.startswith(c["name"]) for c in cfgs))
+        on = set()
+        for c in cfgs:
+            on |= matched(c["name"])
+        return set(range(len(names))) - on
     raise AssertionError(mode)
 
 
